@@ -64,6 +64,10 @@ CLAIMED = {
             "bounded model checking (binding scope): parameters are bound in order to the positional value, else the named value, else the default evaluated in the "
             "callee's argument scope after the parameters to its left; missing, too many and left-over named arguments are errors; the rest parameter takes what is left; "
             "splats, definition-site scoping, @return and @content are outside"),
+    "C20": ("E2", "symbolic execution of RuleDest::push_item / commit_rule and of the destinations' start_atmedia / start_atrule (MIR); z3 and cvc5",
+            "bounded model checking (bubbling scope): an item that cannot live inside a style rule is handed unchanged to the parent after the declarations collected so far were "
+            "committed, later declarations go to a fresh rule with the same selectors, a nested @media / at-rule starts with a rule copied from the parent's selectors; "
+            "selector construction, @at-root and media-query merging are outside"),
     "C21": ("E2", "symbolic execution of handle_item's @error arm, of the destination Drop impls and of their start_atmedia / start_atrule methods (MIR); z3 and cvc5",
             "bounded model checking (dispatch scope): @error always fails the compilation; the Drop impls always commit their content; starting a nested @media / at-rule "
             "never takes content out of the parent destination; "
@@ -85,7 +89,6 @@ NOT_APPLICABLE = {
     "C10": "the kernel is a Display impl interleaving digit extraction with write! into a String and f64: Display (concrete 1.5: no verdict in 200 s); 'printed decimal = correctly rounded binary' needs FP<->Real reasoning no solver here finishes",
     "C15": "precedence and associativity are decided by the nom parser layering",
     "C19": "recursive selector trees of Strings: any harness with one combinator level gave no verdict in 420 s; `&` resolution re-enters the parser",
-    "C20": "tree transformation over css::Item/Rule with Drop-time commits; heap-rich, css::Value inside",
     "C22": "selector trees (see C19)",
     "C23": "selector trees: compound-only transitivity took 275 s, one combinator level no verdict in 420 s",
     "C24": "selector algebra over the same trees; append re-enters the parser",
